@@ -292,6 +292,16 @@ pub fn check_pair(d: &SegPair, obs: &mut Obs) -> Result<(), Failure> {
             obs.class("N3-overlap-arm-on-non-collinear-floats");
             continue;
         }
+        if !d.integer {
+            // N2 on a segment that is exactly one ulp wide: the division point, moved one ulp to the right, lands on the
+            // segment's own right endpoint and leaves a zero-length piece
+            let degenerate = |pieces: &Vec<Seg>, own: Seg| pieces.iter().any(|pc| pc.0 == pc.1 && pc.0 == own.1 && unbump(pc.0, own, d.f32).is_some());
+            if degenerate(&o.pieces[0], sa) || degenerate(&o.pieces[1], sb) {
+                obs.count("known_signature_hits_N2", 1);
+                obs.class("N2-corner-case-1-bump");
+                continue;
+            }
+        }
         if let Err(why) = &o.flags_ok {
             return Err(fail("links-and-flags", format!("{} {}", dir, why), o));
         }
@@ -424,7 +434,24 @@ pub fn check_pair(d: &SegPair, obs: &mut Obs) -> Result<(), Failure> {
         // float: margin clauses. crossing with a clear margin must be found; separation with a clear margin must be respected
         let m = 1e-9 * mag.max(f64::MIN_POSITIVE) * if d.f32 { 1e5 } else { 1.0 };
         let dmin = [dist_point_seg(s1.0, s2), dist_point_seg(s1.1, s2), dist_point_seg(s2.0, s1), dist_point_seg(s2.1, s1)].iter().cloned().fold(f64::INFINITY, f64::min);
-        if dmin > m && abs_sin(s1, s2) > 1e-6 {
+        // the margin clauses go beyond what the property states for floats; they are applied only where no square of a
+        // cross product of coordinate differences can underflow or overflow in the precision of the run
+        let (tiny, huge) = if d.f32 { (f32::MIN_POSITIVE as f64 * 1e12, f32::MAX as f64 * 1e-12) } else { (f64::MIN_POSITIVE * 1e30, f64::MAX * 1e-30) };
+        let mut diffs: Vec<f64> = Vec::new();
+        let pts = [s1.0, s1.1, s2.0, s2.1];
+        for i in 0..4 {
+            for j in i + 1..4 {
+                for v in [(pts[i].x - pts[j].x).abs(), (pts[i].y - pts[j].y).abs()] {
+                    if v > 0.0 {
+                        diffs.push(v);
+                    }
+                }
+            }
+        }
+        let dlo = diffs.iter().cloned().fold(f64::INFINITY, f64::min);
+        let dhi = diffs.iter().cloned().fold(0.0f64, f64::max);
+        let range_ok = dlo.powi(4) > tiny && dhi.powi(4) < huge && mag.powi(4) < huge;
+        if range_ok && dmin > m && abs_sin(s1, s2) > 1e-6 {
             if class == Class::Cross {
                 obs.class("float-crossing-with-margin");
                 for o in [&fwd, &rev] {
@@ -451,6 +478,14 @@ pub fn eval_pair(d: &SegPair, want_sample: bool) -> Eval {
     let r = crate::exec::guarded(u64::MAX, || check_pair(d, &mut obs));
     let result = match r {
         Ok(r) => r,
+        // recorded finding N4 (builds with debug assertions only, float pairs only): divide_segment's
+        // `debug_assert!(se_l.is_before(&r))` ("corner case 1 should be impossible") fires for float segments whose
+        // rounded division point does not come after the left endpoint
+        Err(p) if !d.integer && p.file.ends_with("divide_segment.rs") && p.message.starts_with("assertion failed: se_l.is_before(&r)") => {
+            obs.count("known_signature_hits_N4", 1);
+            obs.class("N4-debug-assertion-in-divide-segment");
+            Ok(())
+        }
         Err(p) => Err(Failure::new("panic", format!("possible_intersection panicked at {}:{}: {} on {:?}", p.file, p.line, p.message, d))),
     };
     let mut h = std::collections::hash_map::DefaultHasher::new();
